@@ -191,7 +191,46 @@ pub fn run_model_into(drv: &mut Driver, table: &mut OracleTable, mi: &ModelInput
             ],
         )
     };
-    ask_with_oracle(drv, table, &build)
+    let resp = ask_with_oracle(drv, table, &build);
+    // the executable contracts of the panic-freedom theorems (C05) on this request: counted, never an alarm
+    if cfg.cancel_at.is_none() && resp.tag() == Some("result") {
+        let orc = table.to_sexp();
+        let mut req = build(&orc);
+        if let Sexp::List(items) = &mut req {
+            items[0] = sexp::atom("contracts");
+        }
+        let c = drv.ask(&req);
+        let names = ["tree-sliceable", "globals-in-graph", "strict-matches-ok", "merged-matches-ok"];
+        let mut all = true;
+        if c.tag() == Some("contracts") {
+            for (i, nm) in names.iter().enumerate() {
+                let ok = c.as_list().and_then(|l| l.get(i + 1)).and_then(|x| x.as_atom()).map(|a| a == "true").unwrap_or(false);
+                // the strict contract is only relevant to strict runs, the merged one to lazy runs
+                let relevant = match i { 2 => !cfg.lazy, 3 => cfg.lazy, _ => true };
+                if relevant && !ok {
+                    all = false;
+                    note_contract(format!("theorem-contracts:broken:{}", nm));
+                }
+            }
+            note_contract(if all { "theorem-contracts:all-hold".to_string() } else { "theorem-contracts:some-broken".to_string() });
+        } else {
+            note_contract("theorem-contracts:no-answer".to_string());
+        }
+    }
+    resp
+}
+
+thread_local! {
+    static CONTRACT_NOTES: std::cell::RefCell<std::collections::BTreeMap<String, usize>> = std::cell::RefCell::new(Default::default());
+}
+
+fn note_contract(k: String) {
+    CONTRACT_NOTES.with(|m| *m.borrow_mut().entry(k).or_insert(0) += 1);
+}
+
+/// counts of contract evaluations since the last call (drained into the report / the child's per-case counts)
+pub fn take_contract_counts() -> Vec<(String, usize)> {
+    CONTRACT_NOTES.with(|m| std::mem::take(&mut *m.borrow_mut()).into_iter().collect())
 }
 
 /// the implementation's run in the model's response shape (panic site unknown on this side)
